@@ -86,6 +86,31 @@ theorem failed_contribute_nothing (txs : List Tx) (r : TxResult)
     (hr : r ∈ (execBlock leafHash reg env txs).notify) (hf : r.ok = false) : r.cross = [] ∧ r.notify = [] :=
   execTxs_failed_cross leafHash reg env txs _ r hr hf
 
+/-- A handler that panics (at any step, after any number of writes, events and cross-chain records, at any call
+depth): nothing in `Invoke`, `HandleInvokeTransaction` or `executeBlock` recovers, so `ExecuteBlock` hands no result
+to its caller — there is nothing that could be submitted, the block as a whole leaves no trace. -/
+theorem panicked_tx_aborts_block (txs : List Tx) (r : TxResult)
+    (hr : r ∈ (execBlock leafHash reg env txs).notify) (hp : r.panicked = true) :
+    execBlockP leafHash reg env txs = none := by
+  unfold execBlockP
+  have : ((execBlock leafHash reg env txs).notify.any (·.panicked)) = true :=
+    List.any_eq_true.mpr ⟨r, hr, hp⟩
+  simp [this]
+
+/-- Even inside the model's bookkeeping a panicking transaction is never recorded as successful and contributes
+nothing (it is treated like a failed one until the block is abandoned). -/
+theorem panicked_tx_not_successful (bs : BlockState) (tx : Tx)
+    (hp : (execTx leafHash reg env bs tx).2.panicked = true) :
+    (execTx leafHash reg env bs tx).2.ok = false ∧ (execTx leafHash reg env bs tx).1.overlay = bs.overlay ∧
+    (execTx leafHash reg env bs tx).2.notify = [] ∧ (execTx leafHash reg env bs tx).2.cross = [] := by
+  have hok : (execTx leafHash reg env bs tx).2.ok = false := by
+    rcases execTx_cases leafHash reg env bs tx with ⟨_, e⟩ | ⟨r, s, hq, ⟨_, e⟩ | ⟨hnf, e⟩⟩
+    · rw [e]
+    · rw [e]
+    · rw [e] at hp
+      simp at hp
+  exact ⟨hok, execTx_failed leafHash reg env bs tx hok⟩
+
 /-- The recursion fuel of the model's nested `Invoke` is not a bound on what is modelled: the context stack refuses the
 1026th frame, so the fuel used by `execTx` never runs out — any larger amount gives the same final state and result
 for every registry and every starting state (the model-only outcome `diverge` is an artefact that is never decisive). -/
@@ -99,6 +124,7 @@ private def cA : Addr := List.replicate 20 0xa1
 private def hRun : Handler := fun args =>
   if args = [1] then .put [1] [0xaa] (.notify ⟨cA, [7]⟩ (.merkle [9] .fail))        -- effects, then failure
   else if args = [2] then .put [1] [0xbb] (.notify ⟨cA, [8]⟩ (.merkle [9] (.ret [1])))
+  else if args = [4] then .put [1] [0xcc] (.notify ⟨cA, [9]⟩ (.merkle [9] .panic))       -- effects, then a panic
   else if args = [3] then                                                            -- swallows an inner failure
     .notify ⟨cA, [5]⟩ (.call cA [0x72] [1] fun _ => .ret [1])
   else .fail
@@ -116,6 +142,10 @@ example : (execTx lh reg0 env0 { overlay := [], cache := [] } (txOf 2)).2.ok = t
     (execTx lh reg0 env0 { overlay := [], cache := [] } (txOf 2)).2.swallowed = 0 ∧
     (execTx lh reg0 env0 { overlay := [], cache := [] } (txOf 2)).2.notify = [⟨cA, [8]⟩] ∧
     (execTx lh reg0 env0 { overlay := [], cache := [] } (txOf 2)).1.overlay = [([5, 1], [0xbb])] := by decide
+
+/-- A handler that panics after a write, an event and a cross-chain record: the block yields no result. -/
+example : execBlockP lh reg0 env0 [txOf 2, txOf 4] = none ∧ (execBlockP lh reg0 env0 [txOf 2, txOf 1]).isSome = true := by
+  decide
 
 /-- The caveat of `ok_tx_keeps_all` is real in the code as written: a handler that goes on after a nested call
 failed succeeds, but the event it emitted *before* the nested call is gone (and the failed callee's writes stay). -/
